@@ -292,6 +292,41 @@ def bool_sep(*vals):
     return not any(b == n for b in bools for n in others)
 
 
+def bool_blind(v, rep, hctx=False):
+    """what the K2 mechanism can conflate on the unchanged code when a bool is == a number: ints and floats everywhere
+    (one table entry per ==-class), but a bool with a number ONLY inside a hashable tuple / frozenset (looked up as a
+    whole by ==) and as a dict key (matched by == in _diff_dict).  A bool that is an item of a list, an unhashable tuple
+    or a set goes through _hash as a BoolObj and is never served the hash of 1."""
+    def loose(a):
+        if isinstance(a, (bool, int, float)):
+            return ("num", repr(float(a)))
+        return _tatom(a)
+
+    def strict(a):
+        if isinstance(a, bool):
+            return ("bool", a)
+        return loose(a)
+    if isinstance(v, list):
+        return ("L", _bag([bool_blind(x, rep) for x in v], rep))
+    if isinstance(v, tuple):
+        h = hctx
+        if not h:
+            try:
+                hash(v)
+                h = True
+            except TypeError:
+                h = False
+        return ("T", _bag([bool_blind(x, rep, h) for x in v], rep))
+    if isinstance(v, dict):
+        return ("D", frozenset((loose(k), bool_blind(x, rep)) for k, x in v.items()
+                               if not (isinstance(k, str) and k.startswith("__"))))
+    if isinstance(v, frozenset):
+        return ("F", frozenset(loose(x) for x in v))
+    if isinstance(v, set):
+        return ("S", frozenset(strict(x) for x in v))
+    return loose(v) if hctx else strict(v)
+
+
 def cb_canon(v, rep):
     """the relation of C05_verdict_shared_table_partial, written independently of the Coq side: dict keys and
     everything below the first list / tuple / set are taken modulo Python == (alias_blind), a scalar reached
@@ -377,12 +412,14 @@ def k2_match(case):
         # BoolObj at the top level of a table lookup, == as a dict key); elsewhere C05_knob_independence_shared_table_partial
         # says it cannot happen
         return (case.get("alias") is True and case.get("bool_sep") is False
-                and case.get("spec_equal") is False and case.get("alias_blind_equal") is True)
+                and case.get("spec_equal") is False and case.get("bool_blind_equal") is True)
     # K2 is about the verdict clause only ("different reported as equal"), on an input with ==-aliasing atoms whose difference vanishes modulo ==;
-    # inside the guard of C05_verdict_shared_table_partial the wrong verdict must be exactly the one the theorem predicts (cb_equal)
+    # inside the guard of C05_verdict_shared_table_partial the wrong verdict must be exactly the one the theorem predicts (cb_equal); outside it
+    # (a bool == a number) only where the table / the dict-key matching can conflate the two at all (bool_blind_equal): a bool next to the equal
+    # int in a LIST is kept apart by the unchanged code
     return (case.get("clause") == "verdict" and case.get("impl_empty") is True and case.get("spec_equal") is False
             and case.get("alias") is True and case.get("alias_blind_equal") is True
-            and (case.get("cb_equal") is True or case.get("bool_sep") is False))
+            and (case.get("cb_equal") is True if case.get("bool_sep") else case.get("bool_blind_equal") is True))
 
 
 MATCHERS = {"C05-K1-tag-collision": k1_match, "C05-K2-memo-alias": k2_match}
@@ -404,6 +441,7 @@ def oracle_case(t1, t2, kn, got):
     if case["alias"]:
         case["alias_blind_equal"] = alias_blind(t1, rep) == alias_blind(t2, rep)
         case["bool_sep"] = bool_sep(t1, t2)
+        case["bool_blind_equal"] = bool_blind(t1, rep) == bool_blind(t2, rep)
         case["cb_equal"] = cb_canon(t1, rep) == cb_canon(t2, rep)
     if case["tag_like"]:
         case["tag_blind_equal"] = tag_blind(t1, rep) == tag_blind(t2, rep)
@@ -660,6 +698,48 @@ LINE_VARIANTS = [("a\nb", "a\nb\n"), ("a\nb", "a\r\nb"), ("a\nb\n", "a\nb\r\n"),
                  ("a\nb", "a\nc"), (b"a\nb", b"a\nb\n")]
 
 
+def bool_pairs(rng, n):
+    """a bool next to the equal int / float in a list / tuple / set NESTED inside an item of an order-ignored list (list in list,
+    list in dict in list, unhashable tuple): the unchanged code keeps the two apart there (BoolObj), so these are ordinary inputs of the
+    property although they are outside the guard bool_sep2"""
+    out = []
+    for _ in range(n):
+        b, z = rng.choice([(True, 1), (False, 0), (True, 1.0), (False, 0.0)])
+        rest = [rng.choice([5, 6, "a", "p", None, 2.5]) for _ in range(rng.randint(1, 3))]
+        both = [b, z] + rest
+        rng.shuffle(both)
+        one = [rng.choice([b, z])] + rest
+        rng.shuffle(one)
+        mk = rng.choice(["list", "list", "dict", "tuple", "set", "deep"])
+
+        def wrap(items):
+            if mk == "list":
+                return list(items)
+            if mk == "dict":
+                return {"k": list(items), "n": 1}
+            if mk == "tuple":
+                return (list(items), "t")                      # unhashable tuple
+            if mk == "set":
+                return [set(x for x in items), "s"]
+            return [[list(items)], 7]
+        pad = [rng.choice([9, "z", 8]) for _ in range(rng.randint(1, 2))]
+        v = rng.random()
+        if v < 0.45:                 # really different: one of the two is missing on the other side
+            t1, t2 = [wrap(both)] + pad, list(reversed(pad)) + [wrap(one)]
+        elif v < 0.8:                # equal as nested sets, shuffled
+            sh = list(both)
+            rng.shuffle(sh)
+            t1, t2 = [wrap(both)] + pad, list(reversed(pad)) + [wrap(sh)]
+        else:                        # bool on one side, the number on the other
+            t1, t2 = [wrap([b] + rest)] + pad, list(reversed(pad)) + [wrap([z] + rest)]
+        if mk == "set" and len({x for x in both}) != len(both):
+            pass                      # {True, 1} is one member in Python: the pair is still a legal input
+        if rng.random() < 0.5:
+            t1, t2 = t2, t1
+        out.append((t1, t2))
+    return out
+
+
 def special_pairs(rng, n):
     """shapes the random generators hit too rarely:
     (a) an atom repeated across nesting levels, [a, [a, b]] against [a, [b]] (and equal variants);
@@ -852,7 +932,8 @@ def oracle_grid(ctx, jobs, pool):
                 _fail(ctx, "knob_dependence", {"t1": t1r, "t2": t2r, "report_repetition": rep, "verdicts": sorted(map(repr, vs)),
                           "alias": V.contains_alias(t1, t2), "tag_like": has_tag_like(t1, t2), "bool_sep": bool_sep(t1, t2),
                           "spec_equal": spec_canon(t1, rep) == spec_canon(t2, rep),
-                          "alias_blind_equal": alias_blind(t1, rep) == alias_blind(t2, rep)},
+                          "alias_blind_equal": alias_blind(t1, rep) == alias_blind(t2, rep),
+                          "bool_blind_equal": bool_blind(t1, rep) == bool_blind(t2, rep)},
                          "the empty/non-empty verdict depends on the pairing knobs")
         for rep in (False, True):
             eq = spec_canon(t1, rep) == spec_canon(t2, rep)
@@ -1313,6 +1394,8 @@ def run(ctx):
     full += alias_full
     specials = special_pairs(rng, 24 if ctx.thorough else 4)
     full += specials          # pairs with ==-aliasing atoms are compared with the memo-threading model
+    bools = bool_pairs(rng, 60 if ctx.thorough else 14)
+    full += bools[:(20 if ctx.thorough else 4)]
     # one list / dict object at two positions of t1 (or t2) in ~13 % of the generated pairs: the model gets the unfolded tree
     cand = list(range(len(FIXED_PAIRS), len(full)))
     rng.shuffle(cand)
@@ -1349,6 +1432,9 @@ def run(ctx):
         thr1 = [k for k in ALL_KNOBS if k["threshold_to_diff_deeper"] == 1]
         for a, b in specials + special_pairs(rng, 40 if ctx.thorough else 10):
             jobs.append((a, b, rng.sample(ALL_KNOBS, 10) + rng.sample(thr1, 4) + [dict(threshold_to_diff_deeper=1.0), dict(threshold_to_diff_deeper=1.0, report_repetition=True)]))
+        for a, b in bools + [([[1, True, 5], 9], [[1, 5], 9]), ([[True, 1, 5], 9], [9, [5, 1, True]]), ([{"k": [0, False]}, 3], [3, {"k": [False]}])]:
+            jobs.append((a, b, [dict(), dict(max_passes=0), dict(cutoff_intersection_for_pairs=0), dict(report_repetition=True)] + rng.sample(ALL_KNOBS, 6)))
+        ctx.count("oracle:bool_next_to_equal_number_pairs", len(bools) + 3)
         n_alias = 0
         while n_alias < (300 if ctx.thorough else 60):
             a, b, _k = gen_pair(rng, alias=True, depth=3)
@@ -1420,5 +1506,6 @@ def replay(ctx, data):
                 _fail(ctx, "knob_dependence", {"t1": case["t1"], "t2": case["t2"], "report_repetition": rep, "verdicts": sorted(map(repr, s)),
                           "alias": V.contains_alias(t1, t2), "tag_like": has_tag_like(t1, t2), "bool_sep": bool_sep(t1, t2),
                           "spec_equal": spec_canon(t1, rep) == spec_canon(t2, rep),
-                          "alias_blind_equal": alias_blind(t1, rep) == alias_blind(t2, rep)},
+                          "alias_blind_equal": alias_blind(t1, rep) == alias_blind(t2, rep),
+                          "bool_blind_equal": bool_blind(t1, rep) == bool_blind(t2, rep)},
                          "the empty/non-empty verdict depends on the pairing knobs")
